@@ -165,6 +165,15 @@ func runC11(c *Ctx) {
 						trace = append(trace, "plaintext-edited")
 					}
 				}
+				if rh.Intn(4) == 0 {
+					// a rejected SetIV (wrong length) must leave the accepted IV in force
+					bad := rh.Bytes(rh.Pick(0, 1, 15, 17, 32))
+					if err := sm4.SetIV(bad); err == nil {
+						rep.Violation("C11/SetIV/accepts-wrong-length", fmt.Sprintf("%d bytes", len(bad)), nil)
+						sm4.SetIV(iv)
+					}
+					trace = append(trace, fmt.Sprintf("rejected-SetIV(%d bytes)", len(bad)))
+				}
 				m := modes[rh.Intn(len(modes))]
 				trace = append(trace, m.name)
 				want := m.want(key, ivCopy, ref.PKCS7Pad(pt, 16))
